@@ -200,7 +200,9 @@ func (w *World) rebuild64(i int) {
 
 func (w *World) out64(i int) { w.X.outs64[i] = true }
 
-func (w *World) setResult64(dst int, bm *roaring64.Bitmap, m *model.Set64, prov string) {
+// setResult64 installs a fresh 64-bit result; regions are the caller-owned buffers it may
+// still reference (inherited from its inputs: a derived bitmap shares flagged chunks).
+func (w *World) setResult64(dst int, bm *roaring64.Bitmap, m *model.Set64, prov string, regions ...[]int) {
 	if bm == nil {
 		if !w.panicked {
 			w.fail(w.curTag, "nil-result", "operation returned nil", w.curOp+" returned nil")
@@ -208,7 +210,11 @@ func (w *World) setResult64(dst int, bm *roaring64.Bitmap, m *model.Set64, prov 
 		bm = roaring64.New()
 		bm.AddMany(m.Slice())
 	}
-	w.X.B64[dst] = &Obj64{BM: bm, M: m, Prov: prov}
+	var rs []int
+	for _, r := range regions {
+		rs = unionRegions(rs, r)
+	}
+	w.X.B64[dst] = &Obj64{BM: bm, M: m, Prov: prov, Regions: w.liveRegions(rs)}
 	w.out64(dst)
 }
 
@@ -563,7 +569,7 @@ func init() {
 				}
 				var c *roaring64.Bitmap
 				w.try("C17", func() { c = o.BM.Clone() })
-				w.setResult64(st.S[0], c, o.M.Clone(), "clone64")
+				w.setResult64(st.S[0], c, o.M.Clone(), "clone64", o.Regions)
 			case 2, 3:
 				if o.NoCopy {
 					return
@@ -572,7 +578,9 @@ func init() {
 				w.try("C17", func() { o.BM.SetCopyOnWrite(st.A[0] == 2) })
 			case 4:
 				w.out64(st.S[1])
-				w.try("C17", func() { o.BM.CloneCopyOnWriteContainers() })
+				if !w.try("C17", func() { o.BM.CloneCopyOnWriteContainers() }) {
+					o.Regions = nil
+				}
 				o.NoCopy = false
 			default:
 				if st.S[0] != st.S[1] && w.step%7 == 0 {
@@ -607,9 +615,10 @@ func init() {
 						res = roaring64.AndNot(a.BM, b.BM)
 					}
 				})
-				w.setResult64(st.S[0], res, modelBin64(op, a.M, b.M), "64:"+binNames[op])
+				w.setResult64(st.S[0], res, modelBin64(op, a.M, b.M), "64:"+binNames[op], a.Regions, b.Regions)
 			case 1: // in place a op= b
 				nm := modelBin64(op, a.M, b.M)
+				a.Regions = unionRegions(a.Regions, b.Regions)
 				w.out64(st.S[1])
 				w.try("C17", func() {
 					switch op {
@@ -656,7 +665,7 @@ func init() {
 			nm.FlipRange(st.A[0], st.A[1])
 			var res *roaring64.Bitmap
 			w.try("C17", func() { res = roaring64.Flip(src.BM, st.A[0], st.A[1]) })
-			w.setResult64(st.S[0], res, nm, "flipstatic64")
+			w.setResult64(st.S[0], res, nm, "flipstatic64", src.Regions)
 		}})
 	reg(&opDef{name: "agg64", tag: "C17",
 		gen: func(w *World, r *Rng) (Step, bool) {
@@ -706,7 +715,11 @@ func init() {
 				}
 			}
 			w.curOp = "agg64:" + name
-			w.setResult64(st.S[0], res, nm, "64:"+name)
+			var regs [][]int
+			for _, sl := range st.S[1:] {
+				regs = append(regs, w.X.B64[sl].Regions)
+			}
+			w.setResult64(st.S[0], res, nm, "64:"+name, regs...)
 		}})
 	reg(&opDef{name: "query64", tag: "C17",
 		gen: func(w *World, r *Rng) (Step, bool) {
@@ -730,7 +743,7 @@ func init() {
 			w.try("C17", func() { res = roaring64.Roaring32AsRoaring64(src.BM.Clone()) })
 			nm := model.NewSet64()
 			src.M.Each(func(v uint32) bool { nm.Add(uint64(v)); return true })
-			w.setResult64(st.S[0], res, nm, "from32")
+			w.setResult64(st.S[0], res, nm, "from32", src.Regions)
 		}})
 	// ------------------------------------------------------------ C18
 	reg(&opDef{name: "rt64", tag: "C18",
